@@ -112,27 +112,7 @@ func c01Stuffing(c *Ctx, lk *layout.Checker) {
 		r.Unknown("A2", "stuffing/anchor", "", "Muxer.WriteData not found")
 		return
 	}
-	makers := map[*ssa.Function]bool{}
-	for _, b := range wd.Blocks {
-		for _, in := range b.Instrs {
-			st, ok := in.(*ssa.Store)
-			if !ok {
-				continue
-			}
-			fa, ok := st.Addr.(*ssa.FieldAddr)
-			if !ok {
-				continue
-			}
-			if n, ok := ssau.FieldName(fa); !ok || n != "AdaptationField" {
-				continue
-			}
-			if call, ok := st.Val.(*ssa.Call); ok {
-				if cal := call.Call.StaticCallee(); cal != nil && cal.Pkg == c.P.SSAPkg {
-					makers[cal] = true
-				}
-			}
-		}
-	}
+	makers := stuffingMakers(c, wd)
 	if len(makers) == 0 {
 		r.Unknown("A2", "stuffing/maker", c.P.Pos(wd.Pos()), "no call in WriteData whose result becomes the packet's adaptation field: how the stuffing adaptation field is built cannot be decided")
 		return
@@ -320,22 +300,49 @@ func c01StuffingReset(c *Ctx) {
 		}
 		return succ != nilSucc
 	}
+	// a store of a non-zero value into a StuffingLength field
+	stuffingStore := func(in ssa.Instruction) bool {
+		st, ok := in.(*ssa.Store)
+		if !ok {
+			return false
+		}
+		fa, ok := st.Addr.(*ssa.FieldAddr)
+		if !ok {
+			return false
+		}
+		if name, _ := ssau.FieldName(fa); name != "StuffingLength" {
+			return false
+		}
+		if k, isC := ssau.ConstInt(st.Val); isC && k == 0 {
+			return false
+		}
+		return true
+	}
 	n := 0
 	for _, b := range f.Blocks {
 		for _, in := range b.Instrs {
-			st, ok := in.(*ssa.Store)
-			if !ok {
-				continue
-			}
-			fa, ok := st.Addr.(*ssa.FieldAddr)
-			if !ok {
-				continue
-			}
-			if name, _ := ssau.FieldName(fa); name != "StuffingLength" {
-				continue
-			}
-			if k, isC := ssau.ConstInt(st.Val); isC && k == 0 {
-				continue
+			st := in
+			if !stuffingStore(in) {
+				// or a call of a helper of the package that contains such a store (an extracted "stuff the packet" helper)
+				call, isCall := in.(*ssa.Call)
+				if !isCall {
+					continue
+				}
+				cal := call.Call.StaticCallee()
+				if cal == nil || cal.Pkg != c.P.SSAPkg || len(cal.Blocks) == 0 {
+					continue
+				}
+				has := false
+				for _, cb := range cal.Blocks {
+					for _, ci := range cb.Instrs {
+						if stuffingStore(ci) {
+							has = true
+						}
+					}
+				}
+				if !has {
+					continue
+				}
 			}
 			n++
 			res := muxstate.MustReach(f, st, muxstate.Flow{
